@@ -47,3 +47,23 @@ From VModel Require Import Recs.
 From VProofs Require Import TieC13.
 Theorem c13_tie_chg_note : chg_notes = src_chg_note.
 Proof. exact tie_chg_note. Qed.
+
+(* the decisions of the recommendation pass as they read now (T1c translation of Algorithms.get_recommendations and get_algorithm_recommendations) *)
+Theorem c13_tie_rec_faults : forall e : desc,
+  faults_of e = src_rec_faults (Z.of_nat (List.length e)) (Z.of_nat (List.length (nth 1 e []))) (Z.of_nat (List.length (nth 2 e []))).
+Proof. exact tie_rec_faults. Qed.
+Theorem c13_tie_rec_skip_add : forall faults cat n empty_version,
+  ((0 <? faults)%Z || never_add cat n || empty_version) = src_rec_skip_add faults cat n empty_version.
+Proof. exact tie_rec_skip_add. Qed.
+Theorem c13_tie_rec_token : forall (s : software) for_server v cmp,
+  sw_available s (snd (fst (ssh_version v))) = (0 <=? cmp)%Z ->
+  (match ssh_version v with
+   | (prod, ver, cli) => negb (String.eqb ver "") && String.eqb prod (sw_product s) && negb (cli && for_server) && sw_available s ver
+   end) = negb (src_rec_token_skipped (fst (fst (ssh_version v))) (snd (fst (ssh_version v))) (snd (ssh_version v)) for_server true (sw_product s) cmp).
+Proof. exact tie_rec_token. Qed.
+Theorem c13_tie_rec_level : forall p, rlevel_text (level_of_points p) = src_rec_level p.
+Proof. exact tie_rec_level. Qed.
+Theorem c13_tie_rec_notes : forall a, (match a with Chg => chg_notes | _ => "" end) = src_rec_notes (action_text a).
+Proof. exact tie_rec_notes. Qed.
+Theorem c13_tie_rec_orders : map action_text [Del; Add; Chg] = src_rec_actions /\ ["kex"; "key"; "enc"; "mac"] = src_rec_categories.
+Proof. exact tie_rec_orders. Qed.
